@@ -291,6 +291,13 @@ class Model:
                 m = re.match(r"^\(\(\(\(\*_1\)\.\d+: oplog::header::Header\)\.\d+: oplog::header::HeaderHints\)\.\d+: u64\) = (.*);$", s)
                 if m:
                     evs.append("set:contig=" + ("start" if m.group(1).strip() == "copy _2" else "other"))
+                m = re.match(r"^\(\(\*_1\)\.\d+: oplog::header::Header\) = (.*);$", s)
+                if m:
+                    rhs = self.resolve(m.group(1))
+                    if "Oplog::append_changeset" in rhs and re.search(r"\.0: oplog::header::Header\)", rhs) and "update_contiguous_length" not in rhs:
+                        evs.append("set:header=outcome.header")
+                    else:
+                        evs.append("set:header=other")
                 if re.search(r"= Option::<(common::peer::)?Proof>::None;$", s):
                     evs.append("proof:None")
                 if re.search(r"= (common::error::)?HypercoreError::NotWritable;$", s):
@@ -608,7 +615,8 @@ class Table:
     in the current state is a violation.  ok / err = states in which the function may return
     Ok / Err."""
 
-    def __init__(self, trans, ok, err, alpha=(), n=None):
+    def __init__(self, trans, ok, err, alpha=(), n=None, forbid_prefix=()):
+        self.forbid_prefix = tuple(forbid_prefix)
         self.trans = dict(trans)
         self.alpha = set(alpha) | {e for (_, e) in self.trans}
         self.ok, self.err = set(ok), set(err)
@@ -619,6 +627,8 @@ class Table:
         return self._states
 
     def step(self, q, ev):
+        if self.forbid_prefix and ev.startswith(self.forbid_prefix):
+            return BAD
         if ev not in self.alpha:
             return q
         return self.trans.get((q, ev), BAD)
@@ -655,17 +665,17 @@ def specs():
     # ---- C02: write-ahead order (data, then log entry = commit point, then in-memory state, then
     # the periodic flush: bitfield, tree, header+truncate)
     S["C02"] = [
-        ("core::append_batch", "append: block data written, then the oplog entry, then bitfield/contiguous length/tree commit in memory, then the periodic flush",
+        ("core::append_batch", "append: block data written, then the oplog entry, then the in-memory header takes the entry's tree head, then bitfield/contiguous length/tree commit in memory, then the periodic flush",
          Seq(["BlockStore::append_batch", "W:BlockStore::append_batch", "Oplog::append_changeset(3=false)", "W:Oplog::append_changeset",
-              "Bitfield::update", "update_contiguous_length", "MerkleTree::commit", FLUSH_F], opt={7}, ok_end={0, 8},
-             forbid=["W:?", "Oplog::append_changeset", "W:BlockStore::append_batch+Oplog::append_changeset", FLUSH_T])),
+              "set:header=outcome.header", "Bitfield::update", "update_contiguous_length", "MerkleTree::commit", FLUSH_F], opt={8}, ok_end={0, 9},
+             forbid=["W:?", "Oplog::append_changeset", "W:BlockStore::append_batch+Oplog::append_changeset", FLUSH_T, "set:header=other"])),
         ("core::clear", "clear: oplog drop entry written first, then the bitfield, then the data hole, then the periodic flush",
          Seq(["Oplog::clear", "W:Oplog::clear", "Bitfield::set_range", "BlockStore::clear", "W:BlockStore::clear", FLUSH_F], opt={5}, ok_end={0, 6},
              forbid=["W:?", FLUSH_T])),
-        ("core::verify_and_apply_proof", "proof application: verify, (block value written), oplog entry written, in-memory bitfield/tree commit, periodic flush",
+        ("core::verify_and_apply_proof", "proof application: verify, (block value written), oplog entry written, the in-memory header takes the entry's tree head on EVERY path (with or without a block), in-memory bitfield/tree commit, periodic flush",
          Seq(["Hypercore::verify_proof", "MerkleTree::commitable", "BlockStore::put", "W:BlockStore::put", "Oplog::append_changeset(3=false)",
-              "W:Oplog::append_changeset", "Bitfield::update", "update_contiguous_length", "MerkleTree::commit", FLUSH_F],
-             opt={2, 3, 6, 7, 9}, ok_end={0, 2, 10}, forbid=["W:?", FLUSH_T])),
+              "W:Oplog::append_changeset", "set:header=outcome.header", "Bitfield::update", "update_contiguous_length", "MerkleTree::commit", FLUSH_F],
+             opt={2, 3, 7, 8, 10}, ok_end={0, 2, 11}, forbid=["W:?", FLUSH_T, "set:header=other"])),
         ("core::flush_bitfield_and_tree_and_oplog", "flush: bitfield pages, then tree nodes, then the oplog header (which drops the log entries) last",
          Seq(["Bitfield::flush", "W:Bitfield::flush", "MerkleTree::flush", "W:MerkleTree::flush", "Oplog::flush(2=p2)", "W:Oplog::flush"],
              forbid=["W:?", "Oplog::flush", "Oplog::flush(2=true)", "Oplog::flush(2=false)"])),
@@ -676,6 +686,9 @@ def specs():
                       (2, "MerkleTree::add_node"): 2, (2, "Bitfield::update"): 3, (3, "update_contiguous_length"): 2,
                       (2, "MerkleTree::truncate"): 4, (4, "MerkleTree::truncate"): 4, (4, "Oplog::update_header_with_changeset"): 5, (5, "MerkleTree::commit"): 2}),
                ok={2}, err={0, 1, 2, 3, 4, 5}, alpha=["W:?", "Bitfield::set_range", "Oplog::append_changeset(3=false)", "Oplog::flush(2=p2)"])))
+    for fn in ("core::append_batch", "core::clear", "core::verify_and_apply_proof", "core::make_read_only", "core::new", "core::get", "core::create_proof"):
+        S["C02"].append((fn, "%s never flushes bitfield, tree or oplog header itself: the only place that does is flush_bitfield_and_tree_and_oplog, which orders them (a header flush that skips the tree or the bitfield drops the only copy of pending entries' effects)" % fn.split("::")[-1],
+                         Table({}, ok={0}, err={0}, forbid_prefix=["Oplog::flush", "Bitfield::flush", "MerkleTree::flush"])))
     # ---- C13: events only after the commit (and after the periodic flush, whose failure makes the
     # call fail), upgrade before have, nothing on a failing path, get event only for a missing block
     S["C13"] = [
@@ -777,6 +790,8 @@ def run(props, mir_text):
         for fn, text, mon in S.get(p, []):
             m = model(fn)
             nm = "mir_%s_%s" % (p.lower(), fn.split("::")[-1])
+            if any(o.get("name") == nm for o in obs):
+                nm += "_noflush" if getattr(mon, "forbid_prefix", None) else "_%d" % len(obs)
             if m is None:
                 obs.append(dict(name=nm, function=fn, result="missing", reasons=["function not found in the MIR dump"]))
                 continue
